@@ -48,7 +48,7 @@ func drawRCase(t *rapid.T, o rOpts) rt.Case {
 			c.Ops = append(c.Ops, rt.Op{K: k, Order: rapid.SampledFrom([]string{"prc", "prc", "prc", "pcr", "cpr", "crp", "prcd", "pcrd", "rcp"}).Draw(t, "order")})
 		case "flood":
 			c.Ops = append(c.Ops, rt.Op{K: "flood", N: rapid.SampledFrom([]int{50, 1100}).Draw(t, "flood")})
-		case "release", "settle", "cancel", "callcancelled":
+		case "release", "settle", "cancel", "callcancelled", "elect":
 			c.Ops = append(c.Ops, rt.Op{K: k})
 		case "plan":
 			c.Ops = append(c.Ops, rt.Op{K: "plan", Kind: rapid.SampledFrom([]string{"propose", "validate", "validate", "commit", "commit", "committee"}).Draw(t, "spi"),
@@ -417,7 +417,7 @@ func gateOverlap(r *rt.Run, kinds ...string) bool {
 }
 
 func TestC13R(t *testing.T) {
-	o := rOpts{Focus: "C13", MaxOps: 14, Kinds: []string{"round", "round", "round", "round", "plan", "trigger", "trigger", "sync", "sync", "burst", "release", "settle", "sleep", "flood"}}
+	o := rOpts{Focus: "C13", MaxOps: 14, Kinds: []string{"round", "round", "round", "round", "plan", "trigger", "trigger", "sync", "sync", "burst", "release", "settle", "sleep", "flood", "elect"}}
 	rProperty(t, o, checkC13, func(r *rt.Run) bool { return gateOverlap(r, "sync", "burst", "trigger") || len(r.Case.Cfg.FailCommitAt) > 0 }, nil)
 }
 
@@ -437,7 +437,7 @@ func TestC14R(t *testing.T) {
 }
 
 func TestC15R(t *testing.T) {
-	o := rOpts{Focus: "C15", MaxOps: 14, Kinds: []string{"round", "round", "plan", "plan", "plan", "trigger", "trigger", "trigger", "sync", "sync", "release", "settle", "settle", "sleep", "flood"}}
+	o := rOpts{Focus: "C15", MaxOps: 14, Kinds: []string{"round", "round", "plan", "plan", "plan", "trigger", "trigger", "trigger", "sync", "sync", "release", "settle", "settle", "sleep", "flood", "elect", "elect"}}
 	rProperty(t, o, checkC15, func(r *rt.Run) bool {
 		for _, e := range r.H.Gates.Snapshot() {
 			if e.Policy != "pass" {
@@ -449,7 +449,7 @@ func TestC15R(t *testing.T) {
 }
 
 func TestC16R(t *testing.T) {
-	o := rOpts{Focus: "C16", MaxOps: 12, Kinds: []string{"round", "round", "plan", "plan", "trigger", "sync", "release", "sleep", "cancel", "callcancelled"}}
+	o := rOpts{Focus: "C16", MaxOps: 12, Kinds: []string{"round", "round", "plan", "plan", "trigger", "sync", "release", "sleep", "cancel", "callcancelled", "elect"}}
 	rProperty(t, o, checkC16, func(r *rt.Run) bool { return len(r.H.Gates.Snapshot()) > 0 && gateWasClosedAtCancel(r) }, func(t *rapid.T, c *rt.Case) {
 		if rapid.Bool().Draw(t, "realtimer") {
 			c.Cfg.RealTimer = true
